@@ -319,14 +319,20 @@ func (i *IRCServer) deleteSessionLocked(s *Session, msgid uint64) {
 	s.deleted = true
 }
 
+func (i *IRCServer) sessionExpiration() time.Duration {
+	i.ConfigMu.RLock()
+	defer i.ConfigMu.RUnlock()
+	return time.Duration(i.Config.SessionExpiration)
+}
+
 // ExpireSessions returns DeleteSession robust.Messages for all sessions
 // that are older than timeout. These messages are then applied to raft.
 func (i *IRCServer) ExpireSessions() []*robust.Message {
 	var deletes []*robust.Message
 
-	i.ConfigMu.RLock()
-	defer i.ConfigMu.RUnlock()
-	timeout := time.Duration(i.Config.SessionExpiration)
+	// ConfigMu must not be held while waiting for sessionsMu: everything else
+	// locks sessionsMu before ConfigMu, the opposite order can deadlock.
+	timeout := i.sessionExpiration()
 
 	i.sessionsMu.RLock()
 	defer i.sessionsMu.RUnlock()
